@@ -196,7 +196,7 @@ func checkC16(cx *Ctx, r *Report) {
 					}
 				case a.Op == "EMPTY" && !a.Neg && strings.HasPrefix(a.A, "phi@"):
 					if c, ok := stripNot(a.Cond).(*ssa.BinOp); ok {
-						if res0phis[c.X] || res0phis[c.Y] {
+						if res0phis[unLen(c.X)] || res0phis[unLen(c.Y)] {
 							nothingYet = true
 						}
 					}
@@ -375,4 +375,14 @@ func flagSetBy(phi *ssa.Phi, b *ssa.BasicBlock, depth int, seen map[*ssa.Phi]boo
 		}
 	}
 	return false
+}
+
+// unLen: the operand of len(x), or v itself.
+func unLen(v ssa.Value) ssa.Value {
+	if c, ok := v.(*ssa.Call); ok {
+		if b, ok := c.Call.Value.(*ssa.Builtin); ok && b.Name() == "len" && len(c.Call.Args) == 1 {
+			return c.Call.Args[0]
+		}
+	}
+	return v
 }
